@@ -47,7 +47,7 @@ def classify(r):
             canary.append(f)
         elif f['label'] and ('postcondition' in f['id'] or 'Check ensures' in f['desc']):
             ens.append(f)
-        elif f['label'] or re.search(r'loop_invariant|loop_decreases|loop_step|loop_assigns|\.unwind\.', f['id']) or 'loop' in f['desc'].lower() and 'invariant' in f['desc'].lower():
+        elif re.search(r'loop_invariant|loop_decreases|loop_step|loop_assigns|\.unwind\.', f['id']) or ('loop' in f['desc'].lower() and 'invariant' in f['desc'].lower()):
             inv.append(f)
         else:
             safety.append(f)
@@ -169,6 +169,9 @@ def main():
                 labelled += [(f, r) for f in r['_ens']]
                 for f in r['_safety']:
                     labelled.append((f, r))
+            if b is not None and b['status'] not in ('ok', 'failed'):
+                b['failures'] = []      # an aborted bounded run decides nothing
+                b['_ens'], b['_safety'] = [], []
             if b is not None and b['status'] == 'failed':
                 have = set(f['label'] for f, _ in labelled if f['label'])
                 for f in b['_ens'] + b['_safety']:
@@ -192,7 +195,7 @@ def main():
                 # prefer the bounded (concrete-loop) counterexample for replay when there is one
                 bf = None
                 if b is not None:
-                    bf = next((x for x in b['failures'] if x['label'] == f['label'] and f['label']), None)
+                    bf = next((x for x in b['failures'] if x['label'] == f['label'] and f['label'] and 'postcondition' in x['id']), None)
                 violations.append(dict(label=label, unit=unit, pu=pu, harness=h, failure=f, result=src, bounded_failure=bf, bounded=b))
         if nat_future is not None:
             try:
